@@ -24,7 +24,7 @@ PROPERTY = {
     "suites": [{"name": "permissioned", "pkg": "internal/db/fetcher", "files": ["zz_verif_c03.go", "zz_verif_c07.go", "zz_verif_c10.go"],
                 "common": ["intrinsics", "kvmodel", "dagenv"], "jobs": jobs, "unwind": 30,
                 "overrides": {"github.com/sourcenetwork/defradb/client.CborNil": "bytes:f6"}}],
-    "bounds": {"documents in the scan": "2-3 (thorough 4)", "per document": "registered / allowed / IsDocRegistered error / CheckDocAccess error all symbolic", "policy": "present or absent", "identity": "none or present"},
+    "bounds": {"stack (O3)": "the real wrappingFetcher Init/Start/FetchNext over 2 (thorough 3) documents in the key-value model, each active or deleted, showDeleted on or off", "documents in the scan": "2-3 (thorough 4)", "per document": "registered / allowed / IsDocRegistered error / CheckDocAccess error all symbolic", "policy": "present or absent", "identity": "none or present"},
     "assumptions": ["the ACP system is a symbolic table (the real local/source-hub ACP is not executed)", "the inner fetcher yields the scan's document ids in order"],
     "outside_claim": ["every path that does not go through this fetcher: commit-history queries (dagScanNode), time travel, joins, aggregates, subscriptions, update/delete checks in collection.go",
                       "the ACP engine itself (zanzibar relations)"],
